@@ -19,7 +19,7 @@ processRawYaml:  convertToStringKeysRecursive → top-level test → [Interpolat
                  → Canonical(dict, SkipInterpolation) → OmitEmpty → EnforceUnicity
 loadYamlModel:   for each file, each document: processRawYaml;  [SetDefaultValues] → [validation.Validate]
                  → [ResolveRelativePaths] → ResolveEnvironment
-load:            "empty compose file" → [Normalize]
+load:            "empty compose file" → "project name must not be empty" → [dict["name"] = projectName; Normalize]
 ```
 
 What is a parameter here and not a model (each has its own theorems or only the oracle):
@@ -118,6 +118,8 @@ structure Params where
   paths : Paths.Cfg
   clean : String → String
   env : C11.Env
+  /-- `opts.projectName` (set before the call; "project name must not be empty" otherwise) -/
+  projectName : String
   /-- gojsonschema's verdict on the merged tree -/
   schemaOK : Val → Bool
   /-- `ApplyExtends` + reset processors + `ApplyInclude` on one document's tree -/
@@ -156,7 +158,9 @@ def loadModel (o : Opts) (P : Params) (raws : List GoVal) : Out Val :=
   (if o.resolvePaths then ofPaths (Paths.resolve P.paths d2) else Out.ok d2).bind fun d3 =>
   let d4 := P.resolveEnv d3
   if (kvsOf d4).isEmpty then .err "empty compose file"
+  else if P.projectName = "" then .err "project name must not be empty"
   else if o.skipNormalization then .ok d4
-  else (ofC11 "Normalize" (C11.normalize P.clean P.env (kvsOf d4))).bind fun kvs => .ok (.map kvs)
+  else (ofC11 "Normalize" (C11.normalize P.clean P.env (Val.insert "name" (.str P.projectName) (kvsOf d4)))).bind fun kvs =>
+    .ok (.map kvs)
 
 end CV.C01.Pipe
